@@ -319,6 +319,9 @@ func (g *Gen) ty(depth int) Ty {
 	case 11:
 		return TypeOf(g.Ty(d))
 	case 12:
+		if g.p(35) {
+			return Itr(g.Ty(d))
+		}
 		return Sens(g.Ty(d))
 	default:
 		if g.NoIter {
